@@ -54,6 +54,15 @@ Proof. unfold couts. induction cs as [|kc r IH]; cbn; auto. rewrite IH. reflexiv
 Lemma cp_of_labels (l : option (list (str * str))) : cp_of (option_map (@amap_of str) l) = spec_common l.
 Proof. symmetry. apply spec_common_cp. Qed.
 
+Lemma gather_same_retype p l c c' : Permutation c c' -> lib_shape c ->
+  map retype (gather_families p l c) = map retype (gather_families p l c').
+Proof.
+  intros P S. rewrite <- !gather_retype. apply gather_same_strict.
+  - apply Permutation_map; auto.
+  - apply lib_shape_retype; auto.
+  - apply agree_type_retype.
+Qed.
+
 (* two tracked registries with the same key gather the same (up to the type if not strict) *)
 Lemma G_same strict w x y rcx : WI w -> RI1 w x -> RI1 w y -> reg_of w x = Some rcx ->
   (strict = true -> types_agree (sigs_of w) (r_collectors rcx)) ->
@@ -72,5 +81,557 @@ Proof.
   rewrite (gather_families_cp (ri_prefix y) (r_labels rc1) (r_labels rc2)) by (rewrite L1, L2, !cp_of_labels; exact Kl).
   destruct strict; cbn.
   - apply gather_same_strict; auto.
-  - apply notype_retype_eq.
-Abort.
+  - apply gather_same_retype; auto.
+Qed.
+
+Lemma RI_in w regs x : RI w regs -> In x regs -> RI1 w x.
+Proof. intros R H. unfold RI in R. rewrite Forall_forall in R. auto. Qed.
+Lemma reg_of_slot w x ri rc : reg_of w x = Some rc -> slot w (ri_slot x) = HRegistry ri -> nth_error (w_reg w) ri = Some rc.
+Proof.
+  unfold reg_of. destruct (nth_error (w_slots w) (ri_slot x)) as [h|] eqn:E; [|discriminate]. rewrite (slot_nth _ _ _ E).
+  destruct h; try discriminate. intros H1 H2. inversion H2; subst. exact H1.
+Qed.
+Lemma regwf_at w ri rc : WI w -> nth_error (w_reg w) ri = Some rc -> regwf (sigs_of w) rc.
+Proof. intros W E. pose proof (wi_reg _ W) as Wr. rewrite Forall_forall in Wr. apply Wr. eapply nth_error_In; eauto. Qed.
+
+Lemma gather_case strict w regs run r x ri rc fs w' :
+  WI w -> RI w regs -> RunInv strict w regs run -> ri_find r regs = Some x -> slot w r = HRegistry ri ->
+  nth_error (w_reg w) ri = Some rc -> collect_all w (r_collectors rc) = Some (fs, w') ->
+  (strict = true -> types_agree (sigs_of w) (r_collectors rc)) ->
+  let fams := gather_families (r_prefix rc) (r_labels rc) fs in
+  chk_c07 strict w x fams = true
+  /\ forallb (fun e => negb (gkey_eqb (fst e) (key_of x)) || samef strict (snd e) fams) run = true
+  /\ RunInv strict w' regs ((key_of x, fams) :: run)
+  /\ (strict = true -> forallb family_homogeneous fams = true).
+Proof.
+  intros W R Ru Hf Hs Hr Hc T. cbv zeta. apply ri_find_some in Hf as [Hx Ex].
+  pose proof (RI_in _ _ _ R Hx) as R1. pose proof R1 as (rc1 & E1 & P1 & L1 & Pm1 & Fm1).
+  rewrite <- Ex in Hs. pose proof (reg_of_slot _ _ _ _ E1 Hs) as Hr'. rewrite Hr in Hr'. inversion Hr'; subst rc1. clear Hr'.
+  destruct (collect_all_pure _ _ _ _ (WI_WQ _ W) Hc) as [Efs Hw]. subst fs.
+  assert (EG : gather_families (r_prefix rc) (r_labels rc) (couts w (r_collectors rc)) = G w x) by (unfold G; rewrite E1; reflexivity).
+  pose proof (regwf_at _ _ _ W Hr) as Er. destruct (reg_shape w W rc Er) as (Sh & Pay & At).
+  split; [|split; [|split]].
+  - unfold chk_c07, collected_now. rewrite Hs, Hr, Hc. rewrite P1, L1. apply gather_ok_model; auto.
+  - apply forallb_forall. intros e He. destruct (gkey_eqb (fst e) (key_of x)) eqn:K; cbn [negb orb]; auto.
+    apply samef_of_rel. rewrite EG. apply (Ru e x); auto.
+  - intros e y [<-|He] Hy K; cbn [fst snd] in *.
+    + rewrite (G_weq _ _ _ Hw), EG. eapply G_same; eauto. apply (RI_in _ _ _ R Hy).
+    + rewrite (G_weq _ _ _ Hw). apply Ru; auto.
+  - intros Es. apply gather_homogeneous_b; auto.
+Qed.
+
+(* ====================================================================================== *)
+(* 2. The bookkeeping of [mixed_walk] against the world.                                   *)
+(* ====================================================================================== *)
+Definition sent (w : world) (s : nat) : option (ckind * str) := went (sigs_of w) (slot w s).
+Definition nomix (es : list (ckind * str)) : Prop := forall e e', In e es -> In e' es -> snd e = snd e' -> fst e = fst e'.
+Definition MI1 (w : world) (rk : list (nat * list (ckind * str))) (x : reginfo) : Prop :=
+  exists es, In (ri_slot x, es) rk /\ Permutation (map Some es) (map (sent w) (ri_members x)) /\ nomix es.
+Record MI (w : world) (sk : list (option (ckind * str))) (rk : list (nat * list (ckind * str))) (regs : list reginfo) : Prop := mkMI {
+  mi_len : length sk = length (w_slots w);
+  mi_ent : forall s, is_coll (slot w s) = true -> nth s sk None = sent w s;
+  mi_regs : Forall (MI1 w rk) regs }.
+
+Lemma ctype_lib S c : ctypeS S c = COUNTER \/ ctypeS S c = GAUGE \/ ctypeS S c = HISTOGRAM.
+Proof.
+  destruct c; cbn; auto.
+  - destruct (nth_error (VS S) c) as [[[d t] l]|]; auto. destruct t; auto.
+  - destruct (nth_error (CS S) v) as [[[d o] k]|]; auto. destruct k as [t k|bs]; cbn; auto. destruct t; auto.
+Qed.
+Lemma kind_of_inj S a b : kind_of (ctypeS S a) = kind_of (ctypeS S b) -> ctypeS S a = ctypeS S b.
+Proof.
+  destruct (ctype_lib S a) as [-> | [-> | ->]], (ctype_lib S b) as [-> | [-> | ->]]; cbn; congruence.
+Qed.
+Lemma MI_types w rk x rc : RI1 w x -> MI1 w rk x -> reg_of w x = Some rc -> types_agree (sigs_of w) (r_collectors rc).
+Proof.
+  intros (rc1 & E1 & _ & _ & Pm & Fm) (es & _ & Pe & Nm) Er. rewrite E1 in Er. inversion Er; subst rc1. clear Er.
+  assert (Hent : forall a, In a (r_collectors rc) ->
+            In (kind_of (ctypeS (sigs_of w) (snd a)), d_fq_name (cdescS (sigs_of w) (snd a))) es).
+  { intros a Ha. assert (Hin : In (snd a) (map (cof w) (ri_members x))).
+    { eapply Permutation_in; [exact Pm|]. apply in_map. exact Ha. }
+    apply in_map_iff in Hin as (s & Es & Hs). rewrite Forall_forall in Fm. destruct (Fm s Hs) as [_ Hcl].
+    assert (Hse : In (sent w s) (map (sent w) (ri_members x))) by (apply in_map; exact Hs).
+    apply (Permutation_in _ (Permutation_sym Pe)) in Hse. apply in_map_iff in Hse as (e & Ee & He).
+    unfold sent, went in Ee. rewrite Hcl in Ee. unfold cof in Es. rewrite Es in Ee. inversion Ee; subst e. exact He. }
+  intros a b Ha Hb En. apply kind_of_inj. apply (Nm _ _ (Hent a Ha) (Hent b Hb)). exact En.
+Qed.
+
+(* ====================================================================================== *)
+(* 3. One step of the spec's walk, of [mixed_walk] and of the domain.                      *)
+(* ====================================================================================== *)
+Definition sk_next (sk : list (option (ckind * str))) (o : op) (ob : obs) := match slot_entry o ob sk with Some e => sk ++ [e] | None => sk end.
+Definition add_entry (r : nat) (e : ckind * str) (x : nat * list (ckind * str)) := if Nat.eqb (fst x) r then (fst x, e :: snd x) else x.
+Definition del_entry (r : nat) (e : ckind * str) (x : nat * list (ckind * str)) := if Nat.eqb (fst x) r then (fst x, remove_entry e (snd x)) else x.
+Definition mixes (r : nat) (e : ckind * str) (rk : list (nat * list (ckind * str))) : bool :=
+  existsb (fun x => Nat.eqb (fst x) r && existsb (fun e' => str_eqb (snd e') (snd e) && negb (ckind_eqb (fst e') (fst e))) (snd x)) rk.
+Definition rk_next (sk : list (option (ckind * str))) (rk : list (nat * list (ckind * str))) (o : op) (ob : obs) :=
+  match o, ob with
+  | OpRegistry _ _, ORes (Ok _) => (length sk, []) :: rk
+  | OpRegister r s, ORes (Ok _) => match nth s sk None with Some e => map (add_entry r e) rk | None => rk end
+  | OpUnregister r s, ORes (Ok _) => match nth s sk None with Some e => map (del_entry r e) rk | None => rk end
+  | _, _ => rk
+  end.
+Lemma mixed_step sk rk o ob ops obs : mixed_walk sk rk (o :: ops) (ob :: obs) = false ->
+  mixed_walk (sk_next sk o ob) (rk_next sk rk o ob) ops obs = false
+  /\ (forall r s u e, o = OpRegister r s -> ob = ORes (Ok u) -> nth s sk None = Some e -> mixes r e rk = false).
+Proof.
+  cbn [mixed_walk]. fold (sk_next sk o ob). unfold rk_next.
+  destruct o as [| | | | | | | | | | | | | | | | | | | | | | | | | | | | | | | | | | |r1 s1|r1 s1| | | | | | | ];
+    try (intros H; split; [exact H|intros; discriminate]);
+    destruct ob as [| [u|e0] | | | | | | | | | | | |]; try (intros H; split; [exact H|intros; discriminate]).
+  - destruct (nth s1 sk None) as [e|] eqn:En.
+    + intros H. apply orb_false_iff in H as [A B]. split; [exact B|]. intros r' s' u' e' Eo _ En'. inversion Eo; subst. rewrite En in En'. inversion En'; subst. exact A.
+    + intros H. split; [exact H|]. intros r' s' u' e' Eo _ En'. inversion Eo; subst. congruence.
+  - destruct (nth s1 sk None) as [e|] eqn:En; intros H; split; auto; intros; discriminate.
+Qed.
+Lemma walk_nongather chk same w regs run o ob ops obs : (forall r, o <> OpGather r) ->
+  walk chk same w regs run (o :: ops) (ob :: obs) = walk chk same (fst (step w o)) (track w regs o ob) [] ops obs.
+Proof.
+  intros H. cbn [walk]. destruct o; try reflexivity; try (destruct ob as [| [u|e0] | | | | | | | | | | | |]; reflexivity).
+  exfalso. eapply H; eauto.
+Qed.
+Lemma track_other w regs o ob : is_regop o = false -> track w regs o ob = regs.
+Proof. destruct o; try discriminate; reflexivity. Qed.
+Lemma rk_next_other sk rk o ob : is_regop o = false -> rk_next sk rk o ob = rk.
+Proof. destruct o; try discriminate; reflexivity. Qed.
+Lemma slot_entry_nopush o ob sk : pushes o = false -> slot_entry o ob sk = None.
+Proof. destruct o; try discriminate; reflexivity. Qed.
+Lemma slot_entry_push o ob sk : pushes o = true -> exists e, slot_entry o ob sk = Some e.
+Proof. destruct o; try discriminate; cbn; eauto. Qed.
+Lemma slot_entry_spec o ob sk w w' h : is_ok ob = true -> entry_spec w w' o h ->
+  (forall s, is_coll (slot w s) = true -> nth s sk None = sent w s) -> slot_entry o ob sk = Some (went (sigs_of w') h).
+Proof.
+  intros Ho He Hm. destruct o; cbn [entry_spec] in He; try contradiction; cbn [slot_entry]; rewrite Ho; try (rewrite He; reflexivity);
+    destruct He as [Hc He]; rewrite (Hm _ Hc); unfold sent; rewrite He; reflexivity.
+Qed.
+
+Lemma slot_nth_error w s h : slot w s = h -> h <> HDead -> nth_error (w_slots w) s = Some h.
+Proof.
+  intros E Hn. unfold slot in E. destruct (nth_error (w_slots w) s) as [h'|] eqn:En.
+  - rewrite (nth_error_nth _ _ _ En) in E. congruence.
+  - apply nth_error_None in En. rewrite nth_overflow in E by lia. congruence.
+Qed.
+Lemma sent_frame w w' s : WI w -> frame w w' -> is_coll (slot w s) = true -> slot w' s = slot w s /\ sent w' s = sent w s.
+Proof.
+  intros W (Hs & Hp & _) Hc. pose proof (slot_coll_lt _ _ Hc) as Hl. pose proof (slot_prefix w w' s Hp Hl) as E. split; auto.
+  unfold sent. rewrite E. apply went_mono; auto. intros _. apply clib_of_slotwf; auto. apply slot_wf; auto.
+Qed.
+Lemma MI1_frame w w' rk x : WI w -> frame w w' -> RI1 w x -> MI1 w rk x -> MI1 w' rk x.
+Proof.
+  intros W F (rc & _ & _ & _ & _ & Fm) (es & A & B & C). exists es. split; auto. split; auto.
+  replace (map (sent w') (ri_members x)) with (map (sent w) (ri_members x)); auto. apply map_ext_in. intros s Hs.
+  rewrite Forall_forall in Fm. destruct (Fm s Hs) as [_ Hc]. symmetry. apply (sent_frame w w' s W F Hc).
+Qed.
+
+Record INV (strict : bool) (w : world) (regs : list reginfo) (sk : list (option (ckind * str))) (rk : list (nat * list (ckind * str))) : Prop := mkINV {
+  i_wi : WI w; i_ri : RI w regs; i_tr : Tracked w regs; i_nd : NoDup (map ri_slot regs);
+  i_lt : Forall (fun x => (ri_slot x < length (w_slots w))%nat) regs;
+  i_mi : strict = true -> MI w sk rk regs }.
+
+Lemma MI_other w w' sk rk regs o ob : WI w -> RI w regs -> MI w sk rk regs -> step_res w o w' ob ->
+  MI w' (sk_next sk o ob) rk regs.
+Proof.
+  intros W R [Ml Me Mr] [[W' F] Er Sl]. unfold sk_next.
+  assert (Hregs : Forall (MI1 w' rk) regs).
+  { apply Forall_forall. intros x Hx. rewrite Forall_forall in Mr. apply (MI1_frame w w' rk x W F (RI_in _ _ _ R Hx) (Mr x Hx)). }
+  destruct (pushes o) eqn:P.
+  - destruct Sl as (h & Es & Nr & Hh). destruct (slot_entry_push o ob sk P) as [e Ee]. rewrite Ee. split; auto.
+    + rewrite Es, !app_length, Ml. reflexivity.
+    + intros s Hc. destruct (Nat.lt_trichotomy s (length (w_slots w))) as [Hl|[Hl|Hl]].
+      * assert (Esl : slot w' s = slot w s) by (apply slot_prefix; auto; apply F).
+        rewrite Esl in Hc. rewrite app_nth1 by lia. rewrite (Me s Hc). symmetry. apply (sent_frame w w' s W F Hc).
+      * subst s. assert (Esl : slot w' (length (w_slots w)) = h).
+        { unfold slot. rewrite Es, app_nth2 by lia. rewrite Nat.sub_diag. reflexivity. }
+        rewrite Esl in Hc. destruct (Hh Hc) as [Ho Hs]. rewrite (slot_entry_spec o ob sk w w' h Ho Hs Me) in Ee. inversion Ee; subst e.
+        unfold sent. rewrite Esl. rewrite <- Ml, app_nth2 by lia. rewrite Nat.sub_diag. reflexivity.
+      * exfalso. unfold slot in Hc. rewrite Es in Hc. rewrite nth_overflow in Hc; [discriminate|]. rewrite app_length. cbn. lia.
+  - rewrite (slot_entry_nopush o ob sk P). split; auto.
+    + rewrite Sl. exact Ml.
+    + intros s Hc. assert (Esl : slot w' s = slot w s) by (unfold slot; rewrite Sl; reflexivity). rewrite Esl in Hc.
+      rewrite (Me s Hc). symmetry. apply (sent_frame w w' s W F Hc).
+Qed.
+
+Lemma INV_of_res strict w regs sk rk o w' ob : INV strict w regs sk rk -> step_res w o w' ob ->
+  INV strict w' regs (sk_next sk o ob) rk.
+Proof.
+  intros [W R T ND Lt M] SR. pose proof SR as [[W' F] Er Sl].
+  assert (Pf : prefix (w_slots w) (w_slots w')) by apply F.
+  split; auto.
+  - apply Forall_forall. intros x Hx. eapply RI1_frame; eauto; [rewrite Er; auto|]. apply (RI_in _ _ _ R Hx).
+  - destruct (pushes o); [destruct Sl as (h & Es & Nr & _); eapply Tracked_push; eauto|eapply Tracked_same; eauto].
+  - eapply Forall_impl; [|exact Lt]. intros x Hx. pose proof (prefix_length _ _ Pf) as Hp. cbn beta in Hx. lia.
+  - intros Es. apply (MI_other w _ sk rk regs o _ W R (M Es) SR).
+Qed.
+Lemma INV_other strict w regs sk rk o : INV strict w regs sk rk -> op_lang o = true -> clone_ok w o = true -> is_regop o = false ->
+  INV strict (fst (step w o)) (track w regs o (snd (step w o))) (sk_next sk o (snd (step w o))) (rk_next sk rk o (snd (step w o))).
+Proof.
+  intros I Hl Hc Hr. rewrite track_other, rk_next_other by auto. apply (INV_of_res strict w); auto. apply step_other; auto. apply I.
+Qed.
+
+(* ---------- OpRegistry ---------- *)
+Lemma reg_new_custom_ok p lab (r : regcore collector) : reg_new_custom p lab = Ok r -> r = mkReg [] [] [] lab p.
+Proof. unfold reg_new_custom. destruct (_ || _); [discriminate|]. intros H. inversion H. reflexivity. Qed.
+Lemma opt_amap (l : option (list (str * str))) : match l with Some l0 => Some (amap_of l0) | None => None end = option_map (@amap_of str) l.
+Proof. destruct l; reflexivity. Qed.
+
+Lemma INV_registry strict w regs sk rk p l r : INV strict w regs sk rk ->
+  reg_new_custom p (option_map (@amap_of str) l) = Ok r ->
+  INV strict (push_slot (set_reg w (w_reg w ++ [r])) (HRegistry (length (w_reg w))))
+      (mkRI (length (w_slots w)) p l [] :: regs) (sk ++ [None]) ((length sk, []) :: rk).
+Proof.
+  intros [W R T ND Lt M] Hr. apply reg_new_custom_ok in Hr.
+  assert (F : WF w (push_slot (set_reg w (w_reg w ++ [r])) (HRegistry (length (w_reg w))))) by (apply P_newreg; auto; rewrite Hr; reflexivity).
+  set (w' := push_slot (set_reg w (w_reg w ++ [r])) (HRegistry (length (w_reg w)))) in *.
+  assert (Esl : w_slots w' = w_slots w ++ [HRegistry (length (w_reg w))]) by reflexivity.
+  split.
+  - apply F.
+  - apply RI_newreg; auto.
+  - intros s ri H. rewrite Esl in H. destruct (Nat.ltb s (length (w_slots w))) eqn:El.
+    + apply Nat.ltb_lt in El. rewrite nth_error_app1 in H by auto. destruct (T s ri H) as (x & Hx & Ex). exists x. split; [right|]; auto.
+    + apply Nat.ltb_ge in El. assert (s = length (w_slots w)).
+      { assert (s < length (w_slots w ++ [HRegistry (length (w_reg w))]))%nat by (apply nth_error_Some; congruence).
+        rewrite app_length in H0. cbn in H0. lia. }
+      subst s. eexists. split; [left; reflexivity|reflexivity].
+  - cbn [map ri_slot]. constructor; auto. intros Hin. apply in_map_iff in Hin as (x & Ex & Hx).
+    rewrite Forall_forall in Lt. specialize (Lt x Hx). cbn beta in Lt. lia.
+  - constructor; [cbn [ri_slot]; rewrite Esl, app_length; cbn; lia|].
+    eapply Forall_impl; [|exact Lt]. intros x Hx. cbn beta in *. rewrite Esl, app_length. lia.
+  - intros Es. destruct (M Es) as [Ml Me Mr]. split.
+    + rewrite Esl, !app_length, Ml. reflexivity.
+    + intros s Hc. destruct (Nat.lt_trichotomy s (length (w_slots w))) as [Hl|[Hl|Hl]].
+      * assert (E1 : slot w' s = slot w s) by (apply slot_prefix; auto; apply F).
+        rewrite E1 in Hc. rewrite app_nth1 by lia. rewrite (Me s Hc). symmetry. apply (sent_frame w w' s W (proj2 F) Hc).
+      * subst s. exfalso. unfold slot in Hc. rewrite Esl, app_nth2 in Hc by lia. rewrite Nat.sub_diag in Hc. discriminate.
+      * exfalso. unfold slot in Hc. rewrite Esl in Hc. rewrite nth_overflow in Hc; [discriminate|]. rewrite app_length. cbn. lia.
+    + constructor.
+      * exists []. cbn [ri_slot ri_members map]. split; [left; rewrite Ml; reflexivity|]. split; [constructor|]. intros e e' [].
+      * apply Forall_forall. intros x Hx. rewrite Forall_forall in Mr.
+        destruct (MI1_frame w w' rk x W (proj2 F) (RI_in _ _ _ R Hx) (Mr x Hx)) as (es & A & B & C). exists es. split; [right|]; auto.
+Qed.
+
+(* ---------- OpRegister / OpUnregister ---------- *)
+Lemma ri_update_map r f regs : map ri_slot (ri_update r f regs) = map ri_slot regs.
+Proof. unfold ri_update. rewrite map_map. apply map_ext. intros x. destruct (Nat.eqb (ri_slot x) r); reflexivity. Qed.
+Lemma ri_update_in r f regs y : In y (ri_update r f regs) ->
+  exists x, In x regs /\ y = (if Nat.eqb (ri_slot x) r then mkRI (ri_slot x) (ri_prefix x) (ri_labels x) (f (ri_members x)) else x).
+Proof. unfold ri_update. intros H. apply in_map_iff in H as (x & E & Hx). eauto. Qed.
+
+Lemma existsb_false {A} (f : A -> bool) l : existsb f l = false -> forall x, In x l -> f x = false.
+Proof. induction l as [|y l IH]; cbn; [tauto|]. intros H x [<-|Hx]; apply orb_false_iff in H as [A1 B1]; auto. Qed.
+Lemma ckind_eqb_eq a b : ckind_eqb a b = true <-> a = b.
+Proof. destruct a, b; cbn; split; intros; try discriminate; auto. Qed.
+Lemma remove_entry_perm e es : In e es -> Permutation es (e :: remove_entry e es).
+Proof.
+  induction es as [|x es IH]; cbn; [tauto|]. destruct (ckind_eqb (fst x) (fst e) && str_eqb (snd x) (snd e)) eqn:E.
+  - apply andb_true_iff in E as [A B]. apply ckind_eqb_eq in A. apply str_eqb_eq in B. destruct x, e; cbn in *; subst. auto.
+  - intros [H|H].
+    + subst x. rewrite str_eqb_refl in E. replace (ckind_eqb (fst e) (fst e)) with true in E by (symmetry; apply ckind_eqb_eq; auto). discriminate.
+    + rewrite (IH H) at 1. apply perm_swap.
+Qed.
+Lemma remove_entry_sub e es x : In x (remove_entry e es) -> In x es.
+Proof. induction es as [|y es IH]; cbn; auto. destruct (_ && _); cbn; intros H; auto. destruct H; auto. Qed.
+
+Section RegOps.
+  Variables (strict : bool) (w : world) (regs : list reginfo) (sk : list (option (ckind * str))) (rk : list (nat * list (ckind * str))).
+  Variables (r s ri : nat) (c : collector) (ds : list Desc) (rc rc' : regcore collector).
+  Hypothesis I : INV strict w regs sk rk.
+  Hypothesis Hr : slot w r = HRegistry ri.
+  Hypothesis Hc : collector_of w (slot w s) = Some (c, ds).
+  Hypothesis Hn : nth_error (w_reg w) ri = Some rc.
+  Let S := sigs_of w.
+  Let w' := set_reg w (list_set (w_reg w) ri rc').
+
+  Lemma ro_coll : is_coll (slot w s) = true /\ c = cof w s /\ ds = [cdescS S c] /\ clibS S c /\ (s < length (w_slots w))%nat.
+  Proof.
+    destruct (collector_of_spec w (slot w s) c ds (slot_wf w s (i_wi _ _ _ _ _ I)) Hc) as (A & B & C & D).
+    repeat split; auto. apply slot_coll_lt; auto.
+  Qed.
+  Lemma ro_slot_r : nth_error (w_slots w) r = Some (HRegistry ri).
+  Proof. apply slot_nth_error; auto. discriminate. Qed.
+  Lemma ro_reg_of x : In x regs -> ri_slot x = r -> reg_of w x = Some rc.
+  Proof. intros Hx Ex. unfold reg_of. rewrite Ex, ro_slot_r. exact Hn. Qed.
+  Lemma ro_other x : In x regs -> ri_slot x <> r -> RI1 w x -> RI1 w' x.
+  Proof.
+    intros Hx Ne R1. apply RI_setreg_other; auto; [apply I|]. intros rcx _ E. apply Ne.
+    apply (WI_reg_unique w _ _ ri (i_wi _ _ _ _ _ I) E ro_slot_r).
+  Qed.
+  Lemma ro_ri_lt : (ri < length (w_reg w))%nat.
+  Proof. apply nth_error_Some. congruence. Qed.
+  Lemma ro_reg_of' x : ri_slot x = r -> reg_of w' x = Some rc'.
+  Proof. intros Ex. unfold reg_of. cbn [w' set_reg w_slots w_reg]. rewrite Ex, ro_slot_r. apply nth_list_set_eq. apply ro_ri_lt. Qed.
+  Lemma ro_sent s0 : sent w' s0 = sent w s0.
+  Proof. reflexivity. Qed.
+
+  (* the invariants that do not depend on the members *)
+  Lemma ro_common f regs' : regs' = ri_update r f regs -> regwf S rc' ->
+    WI w' /\ Tracked w' regs' /\ NoDup (map ri_slot regs') /\ Forall (fun x => (ri_slot x < length (w_slots w'))%nat) regs'.
+  Proof.
+    intros -> Hw. destruct I as [W R T ND Lt M]. split; [apply (P_setreg w ri rc' W Hw)|]. split; [|split].
+    - intros s0 ri0 H. destruct (T s0 ri0 H) as (x & Hx & Ex). unfold ri_update.
+      exists (if Nat.eqb (ri_slot x) r then mkRI (ri_slot x) (ri_prefix x) (ri_labels x) (f (ri_members x)) else x).
+      split; [apply in_map_iff; eauto|]. destruct (Nat.eqb (ri_slot x) r); auto.
+    - rewrite ri_update_map. exact ND.
+    - apply Forall_forall. intros y Hy. apply ri_update_in in Hy as (x & Hx & ->). rewrite Forall_forall in Lt. specialize (Lt x Hx).
+      destruct (Nat.eqb (ri_slot x) r); auto.
+  Qed.
+
+  Lemma INV_register :
+    reg_register rc ds c = Ok rc' -> register_compat S rc (cdescS S c) = true ->
+    (strict = true -> forall e, nth s sk None = Some e -> mixes r e rk = false) ->
+    INV strict w' (ri_update r (fun m => s :: m) regs) sk (match nth s sk None with Some e => map (add_entry r e) rk | None => rk end).
+  Proof.
+    intros Hreg Hcomp Hmix. destruct ro_coll as (Cl & Ec & Eds & Lc & Ls). pose proof I as [W R T ND Lt M].
+    rewrite Eds in Hreg. pose proof (reg_register_single _ _ _ _ Hreg) as (_ & Ecs & Ep & El).
+    assert (Hw : regwf S rc') by (eapply register_regwf; eauto; apply (regwf_at w ri rc W Hn)).
+    destruct (ro_common (fun m => s :: m) _ eq_refl Hw) as (W' & T' & ND' & Lt').
+    split; auto.
+    - apply Forall_forall. intros y Hy. apply ri_update_in in Hy as (x & Hx & ->). pose proof (RI_in _ _ _ R Hx) as R1.
+      destruct (Nat.eqb (ri_slot x) r) eqn:Ex; [|apply Nat.eqb_neq in Ex; apply ro_other; auto].
+      apply Nat.eqb_eq in Ex. destruct R1 as (rc1 & E1 & P1 & L1 & Pm & Fm). rewrite (ro_reg_of x Hx Ex) in E1. inversion E1; subst rc1.
+      exists rc'. split; [apply ro_reg_of'; auto|]. cbn [ri_prefix ri_labels ri_members]. split; [congruence|]. split; [congruence|]. split.
+      + rewrite Ecs, map_app. cbn [map snd]. rewrite Ec. eapply Permutation_trans; [apply Permutation_app_comm|]. cbn. constructor. exact Pm.
+      + constructor; auto.
+    - intros Es. destruct (M Es) as [Ml Me Mr].
+      set (e0 := (kind_of (ctypeS (sigs_of w) (cofh (slot w s))), d_fq_name (cdescS (sigs_of w) (cofh (slot w s))))).
+      assert (Ee : sent w s = Some e0) by (unfold sent, went; rewrite Cl; reflexivity).
+      assert (En : nth s sk None = Some e0) by (rewrite (Me s Cl); exact Ee).
+      assert (Hm0 : mixes r e0 rk = false) by (apply Hmix; auto).
+      rewrite En. split; auto. apply Forall_forall. intros y Hy. apply ri_update_in in Hy as (x & Hx & ->). rewrite Forall_forall in Mr.
+      destruct (Mr x Hx) as (es & A & B & C). destruct (Nat.eqb (ri_slot x) r) eqn:Ex.
+      + apply Nat.eqb_eq in Ex. exists (e0 :: es). cbn [ri_slot ri_members]. split; [|split].
+        * apply in_map_iff. exists (ri_slot x, es). split; auto. unfold add_entry. cbn [fst snd]. rewrite Ex, Nat.eqb_refl. reflexivity.
+        * cbn [map]. rewrite ro_sent, Ee. constructor. exact B.
+        * assert (Hn0 : forall e', In e' es -> snd e' = snd e0 -> fst e' = fst e0).
+          { intros e' He' En'. unfold mixes in Hm0. pose proof (existsb_false _ _ Hm0 _ A) as X. cbn [fst snd] in X.
+            rewrite Ex, Nat.eqb_refl in X. cbn [andb] in X. pose proof (existsb_false _ _ X _ He') as Y. cbn beta in Y.
+            rewrite En', str_eqb_refl in Y. cbn [andb] in Y. apply negb_false_iff in Y. apply ckind_eqb_eq. exact Y. }
+          intros e1 e2 [<-|H1] [<-|H2] E12; auto. symmetry. apply Hn0; auto.
+      + exists es. cbn. split; [|split; auto]. apply in_map_iff. exists (ri_slot x, es). split; auto. unfold add_entry. cbn [fst]. rewrite Ex. reflexivity.
+  Qed.
+
+  Lemma INV_unregister :
+    reg_unregister rc ds = Ok rc' ->
+    (forall x, In x regs -> ri_slot x = r -> In s (ri_members x)) ->
+    INV strict w' (ri_update r (remove_nat s) regs) sk (match nth s sk None with Some e => map (del_entry r e) rk | None => rk end).
+  Proof.
+    intros Hreg Hmem. destruct ro_coll as (Cl & Ec & Eds & Lc & Ls). pose proof I as [W R T ND Lt M].
+    pose proof (reg_unregister_spec _ _ _ Hreg) as (Ecs & Ep & El).
+    pose proof (regwf_at w ri rc W Hn) as Hw0.
+    assert (Hw : regwf S rc') by (eapply unregister_regwf; eauto).
+    destruct (ro_common (remove_nat s) _ eq_refl Hw) as (W' & T' & ND' & Lt').
+    split; auto.
+    - apply Forall_forall. intros y Hy. apply ri_update_in in Hy as (x & Hx & ->). pose proof (RI_in _ _ _ R Hx) as R1.
+      destruct (Nat.eqb (ri_slot x) r) eqn:Ex; [|apply Nat.eqb_neq in Ex; apply ro_other; auto].
+      apply Nat.eqb_eq in Ex. pose proof (Hmem x Hx Ex) as Hs. destruct R1 as (rc1 & E1 & P1 & L1 & Pm & Fm).
+      rewrite (ro_reg_of x Hx Ex) in E1. inversion E1; subst rc1.
+      exists rc'. split; [apply ro_reg_of'; auto|]. cbn [ri_prefix ri_labels ri_members]. split; [congruence|]. split; [congruence|]. split.
+      + assert (Hin : In c (map snd (r_collectors rc))).
+        { eapply Permutation_in; [apply Permutation_sym; exact Pm|]. rewrite Ec. apply in_map. exact Hs. }
+        apply in_map_iff in Hin as ([k0 c0] & E0 & Hk). cbn in E0. subst c0.
+        destruct Hw0 as (F0 & ND0 & _). rewrite Forall_forall in F0. destruct (F0 _ Hk) as [_ K0]. cbn [fst snd] in K0.
+        assert (Ek : collector_id ds = k0) by (rewrite Eds, K0; reflexivity).
+        destruct (nremove_split k0 c (r_collectors rc) ND0 Hk) as (l1 & l2 & Esp & Enr).
+        rewrite Ecs, Ek, Enr. rewrite Esp in Pm. rewrite map_app in *. cbn [map snd] in Pm.
+        apply (Permutation_cons_inv (a := c)).
+        eapply Permutation_trans; [apply Permutation_middle|]. eapply Permutation_trans; [exact Pm|].
+        rewrite Ec. eapply Permutation_trans; [apply Permutation_map; apply remove_nat_perm; exact Hs|]. cbn [map]. apply Permutation_refl.
+      + eapply Forall_sub; [|exact Fm]. intros z. apply remove_nat_sub.
+    - intros Es. destruct (M Es) as [Ml Me Mr].
+      set (e0 := (kind_of (ctypeS (sigs_of w) (cofh (slot w s))), d_fq_name (cdescS (sigs_of w) (cofh (slot w s))))).
+      assert (Ee : sent w s = Some e0) by (unfold sent, went; rewrite Cl; reflexivity).
+      assert (En : nth s sk None = Some e0) by (rewrite (Me s Cl); exact Ee).
+      rewrite En. split; auto. apply Forall_forall. intros y Hy. apply ri_update_in in Hy as (x & Hx & ->). rewrite Forall_forall in Mr.
+      destruct (Mr x Hx) as (es & A & B & C). destruct (Nat.eqb (ri_slot x) r) eqn:Ex.
+      + apply Nat.eqb_eq in Ex. pose proof (Hmem x Hx Ex) as Hs. exists (remove_entry e0 es). cbn [ri_slot ri_members]. split; [|split].
+        * apply in_map_iff. exists (ri_slot x, es). split; auto. unfold del_entry. cbn [fst snd]. rewrite Ex, Nat.eqb_refl. reflexivity.
+        * assert (He0 : In e0 es).
+          { assert (X : In (Some e0) (map Some es)).
+            { eapply Permutation_in; [apply Permutation_sym; exact B|]. rewrite <- Ee. apply in_map. exact Hs. }
+            apply in_map_iff in X as (z & Ez & Hz). inversion Ez; subst. exact Hz. }
+          apply (Permutation_cons_inv (a := Some e0)).
+          change (Some e0 :: map Some (remove_entry e0 es)) with (map Some (e0 :: remove_entry e0 es)).
+          eapply Permutation_trans; [apply Permutation_map, Permutation_sym, remove_entry_perm; exact He0|].
+          eapply Permutation_trans; [exact B|]. rewrite <- Ee.
+          eapply Permutation_trans; [apply Permutation_map; apply remove_nat_perm; exact Hs|]. cbn [map]. apply Permutation_refl.
+        * intros e1 e2 H1 H2. apply C; eapply remove_entry_sub; eauto.
+      + exists es. cbn. split; [|split; auto]. apply in_map_iff. exists (ri_slot x, es). split; auto. unfold del_entry. cbn [fst]. rewrite Ex. reflexivity.
+  Qed.
+End RegOps.
+
+(* ---------- every operation but gather ---------- *)
+Lemma INV_same strict w regs sk rk o ob : INV strict w regs sk rk -> pushes o = false -> INV strict w regs (sk_next sk o ob) rk.
+Proof. intros I P. apply (INV_of_res strict w regs sk rk o w ob I). apply res_same; auto. apply I. Qed.
+Lemma existsb_nat_in s l : existsb (Nat.eqb s) l = true -> In s l.
+Proof. intros H. apply existsb_exists in H as (x & Hx & E). apply Nat.eqb_eq in E. subst. exact Hx. Qed.
+
+Lemma INV_step strict w regs sk rk o : INV strict w regs sk rk ->
+  op_lang o = true -> clone_ok w o = true -> op_dyn w regs o (snd (step w o)) = true ->
+  (strict = true -> forall r s u e, o = OpRegister r s -> snd (step w o) = ORes (Ok u) -> nth s sk None = Some e -> mixes r e rk = false) ->
+  INV strict (fst (step w o)) (track w regs o (snd (step w o))) (sk_next sk o (snd (step w o))) (rk_next sk rk o (snd (step w o))).
+Proof.
+  intros I Hl Hc Hd Hm. destruct (is_regop o) eqn:Hr; [|apply INV_other; auto].
+  destruct o; try discriminate Hr; clear Hr Hl Hc; revert Hd Hm; cbn [step].
+  - (* OpRegistry *) rewrite opt_amap. destruct (reg_new_custom prefix (option_map (@amap_of str) labels)) as [r|e] eqn:E; cbn [fst snd]; intros _ _.
+    + apply INV_registry; auto.
+    + apply (INV_of_res strict w regs sk rk (OpRegistry prefix labels) _ (ORes (Err e)) I). apply res_dead; auto. apply I.
+  - (* OpRegister *)
+    destruct (slot w r) eqn:Er; try (cbn [fst snd]; intros _ _; apply (INV_same strict w regs sk rk (OpRegister r s) OBad I eq_refl)).
+    destruct (collector_of w (slot w s)) as [[c ds]|] eqn:Ec; [|cbn [fst snd]; intros _ _; apply (INV_same strict w regs sk rk (OpRegister r s) OBad I eq_refl)].
+    destruct (nth_error (w_reg w) r0) as [rc|] eqn:En; [|cbn [fst snd]; intros _ _; apply (INV_same strict w regs sk rk (OpRegister r s) OBad I eq_refl)].
+    destruct (reg_register rc ds c) as [rc'|e] eqn:Eg; cbn [fst snd].
+    + cbn [op_dyn track rk_next]. rewrite Er, Ec, En. intros Hd Hm.
+      apply (INV_register strict w regs sk rk r s r0 c ds rc rc' I Er Ec En Eg Hd). intros Es e He. eapply Hm; eauto.
+    + intros _ _. apply (INV_same strict w regs sk rk (OpRegister r s) (ORes (Err e)) I eq_refl).
+  - (* OpUnregister *)
+    destruct (slot w r) eqn:Er; try (cbn [fst snd]; intros _ _; apply (INV_same strict w regs sk rk (OpUnregister r s) OBad I eq_refl)).
+    destruct (collector_of w (slot w s)) as [[c ds]|] eqn:Ec; [|cbn [fst snd]; intros _ _; apply (INV_same strict w regs sk rk (OpUnregister r s) OBad I eq_refl)].
+    destruct (nth_error (w_reg w) r0) as [rc|] eqn:En; [|cbn [fst snd]; intros _ _; apply (INV_same strict w regs sk rk (OpUnregister r s) OBad I eq_refl)].
+    destruct (reg_unregister rc ds) as [rc'|e] eqn:Eg; cbn [fst snd].
+    + cbn [op_dyn track rk_next]. intros Hd _.
+      apply (INV_unregister strict w regs sk rk r s r0 c ds rc rc' I Er Ec En Eg). intros x Hx Ex.
+      destruct (ri_find r regs) as [x0|] eqn:Ef.
+      * apply ri_find_some in Ef as [Hx0 Ex0]. assert (x = x0) by (apply (NoDup_map_inj_on ri_slot regs); auto; [apply I|congruence]).
+        subst x0. apply existsb_nat_in. exact Hd.
+      * exfalso. eapply ri_find_none; eauto.
+    + intros _ _. apply (INV_same strict w regs sk rk (OpUnregister r s) (ORes (Err e)) I eq_refl).
+Qed.
+
+(* ====================================================================================== *)
+(* 4. The induction over histories.                                                        *)
+(* ====================================================================================== *)
+Definition hom_ob (ob : obs) : bool := match ob with OFams fams => forallb family_homogeneous fams | _ => true end.
+Definition is_fams (ob : obs) : bool := match ob with OFams _ => true | _ => false end.
+
+Lemma step_not_fams w o : op_lang o = true -> (forall r, o <> OpGather r) -> is_fams (snd (step w o)) = false.
+Proof.
+  intros Hl Hg. destruct o; try discriminate Hl; try (exfalso; eapply Hg; reflexivity); cbn [step];
+    repeat match goal with |- context [match ?x with _ => _ end] => destruct x end; reflexivity.
+Qed.
+
+Lemma classic_gather o : (exists r, o = OpGather r) \/ (forall r, o <> OpGather r).
+Proof. destruct o; try (right; intros r0; discriminate). left. eauto. Qed.
+
+(* what a gather observes *)
+Lemma gather_obs w r :
+  (exists ri rc fs w', slot w r = HRegistry ri /\ nth_error (w_reg w) ri = Some rc /\ collect_all w (r_collectors rc) = Some (fs, w')
+                       /\ step w (OpGather r) = (w', OFams (gather_families (r_prefix rc) (r_labels rc) fs)))
+  \/ is_fams (snd (step w (OpGather r))) = false.
+Proof.
+  cbn [step]. destruct (slot w r) eqn:Es; auto. destruct (nth_error (w_reg w) r0) as [rc|] eqn:En; auto.
+  destruct (collect_all w (r_collectors rc)) as [[fs w']|] eqn:Ec; auto. left. exists r0, rc, fs, w'. auto.
+Qed.
+Lemma walk_gather_nofams chk same w regs rn r ob ops obs : is_fams ob = false ->
+  walk chk same w regs rn (OpGather r :: ops) (ob :: obs) = walk chk same (fst (step w (OpGather r))) regs [] ops obs.
+Proof. intros H. cbn [walk]. destruct ob; try reflexivity. discriminate. Qed.
+
+Theorem walk_model strict : forall ops w regs rn sk rk,
+  INV strict w regs sk rk -> RunInv strict w regs rn -> dom_walk w regs ops = true ->
+  (strict = true -> mixed_walk sk rk ops (World.run w ops) = false) ->
+  walk (chk_c07 strict) (samef strict) w regs rn ops (World.run w ops) = true
+  /\ (strict = true -> forallb hom_ob (World.run w ops) = true).
+Proof.
+  induction ops as [|o ops IH]; intros w regs rn sk rk I Ru Hd Hmx; [split; reflexivity|].
+  cbn [dom_walk] in Hd. apply andb_true_iff in Hd as [Hd Hd4]. apply andb_true_iff in Hd as [Hd Hd3]. apply andb_true_iff in Hd as [Hd1 Hd2].
+  cbn [World.run] in *. destruct (step w o) as [w' ob] eqn:Est. cbn [fst snd] in *.
+  assert (E1 : fst (step w o) = w') by (rewrite Est; reflexivity). assert (E2 : snd (step w o) = ob) by (rewrite Est; reflexivity).
+  assert (Hms : strict = true -> mixed_walk (sk_next sk o ob) (rk_next sk rk o ob) ops (World.run w' ops) = false
+                                 /\ (forall r s u e, o = OpRegister r s -> ob = ORes (Ok u) -> nth s sk None = Some e -> mixes r e rk = false)).
+  { intros Es. apply mixed_step. auto. }
+  assert (I' : INV strict w' (track w regs o ob) (sk_next sk o ob) (rk_next sk rk o ob)).
+  { rewrite <- E1, <- E2. apply INV_step; auto; rewrite ?E2; auto. intros Es. apply (Hms Es). }
+  assert (Hmx' : strict = true -> mixed_walk (sk_next sk o ob) (rk_next sk rk o ob) ops (World.run w' ops) = false) by (intros Es; apply (Hms Es)).
+  assert (Nongather : is_fams ob = false -> track w regs o ob = regs \/ (forall r, o <> OpGather r) ->
+            walk (chk_c07 strict) (samef strict) w regs rn (o :: ops) (ob :: World.run w' ops) = true
+            /\ (strict = true -> forallb hom_ob (ob :: World.run w' ops) = true)).
+  { intros Hnf Hng.
+    assert (Ew : walk (chk_c07 strict) (samef strict) w regs rn (o :: ops) (ob :: World.run w' ops)
+                 = walk (chk_c07 strict) (samef strict) w' (track w regs o ob) [] ops (World.run w' ops)).
+    { destruct (classic_gather o) as [[r ->]|Hn].
+      - rewrite walk_gather_nofams by auto. rewrite E1. reflexivity.
+      - rewrite walk_nongather by auto. rewrite E1. reflexivity. }
+    destruct (IH w' (track w regs o ob) [] _ _ I' (fun e x H => match H with end) Hd4 Hmx') as [A B].
+    split; [rewrite Ew; exact A|]. intros Es. cbn [forallb]. rewrite (B Es), andb_true_r. destruct ob; try reflexivity. discriminate. }
+  destruct (classic_gather o) as [[r ->]|Hn].
+  - destruct (gather_obs w r) as [(ri & rc & fs & w1 & Hs & Hr & Hc & Estep)|Hnf].
+    2:{ rewrite E2 in Hnf. apply Nongather; auto. }
+    rewrite Est in Estep. inversion Estep; subst w1 ob. clear Estep.
+    pose proof I as [W R T ND Lt M].
+    destruct (T r ri (slot_nth_error _ _ _ Hs ltac:(discriminate))) as (x0 & Hx0 & Ex0).
+    destruct (ri_find r regs) as [x|] eqn:Ef; [|exfalso; eapply ri_find_none; eauto].
+    assert (Ty : strict = true -> types_agree (sigs_of w) (r_collectors rc)).
+    { intros Es. destruct (M Es) as [_ _ Mr]. rewrite Forall_forall in Mr. pose proof Ef as Ef'. apply ri_find_some in Ef' as [Hx Ex].
+      apply (MI_types w rk x rc (RI_in _ _ _ R Hx) (Mr x Hx)). pose proof (RI_in _ _ _ R Hx) as (rc1 & Er1 & _).
+      rewrite <- Ex in Hs. rewrite Er1. f_equal. pose proof (reg_of_slot _ _ _ _ Er1 Hs) as X. congruence. }
+    destruct (gather_case strict w regs rn r x ri rc fs w' W R Ru Ef Hs Hr Hc Ty) as (A & B & C & D).
+    cbn [track] in I'. destruct (IH w' regs _ _ _ I' C Hd4 Hmx') as [A' B'].
+    split.
+    + cbn [walk]. rewrite Ef, A, B. cbn [andb]. rewrite E1. exact A'.
+    + intros Es. cbn [forallb hom_ob]. rewrite (D Es), (B' Es). reflexivity.
+  - apply Nongather; auto. rewrite <- E2. apply step_not_fams; auto.
+Qed.
+
+(* ====================================================================================== *)
+(* 5. The theorems.                                                                        *)
+(* ====================================================================================== *)
+Lemma INV0 strict : INV strict world0 [] [] [].
+Proof.
+  split; try constructor; try apply WI0; cbn; auto.
+  - intros s ri H. destruct s; discriminate.
+  - intros s Hs. unfold slot in Hs. cbn in Hs. destruct s; discriminate.
+Qed.
+Lemma RunInv_nil strict w regs : RunInv strict w regs [].
+Proof. intros e x []. Qed.
+
+(* the executable domain of C14 is that of C07 *)
+Definition dom14 (ops : list op) : bool := dom07 ops.
+
+Theorem c07_spec_strict ops : dom07 ops = true -> mixed_kinds_registered ops (World.run world0 ops) = false ->
+  spec_c07 ops (World.run world0 ops) = true.
+Proof.
+  intros Hd Hm. unfold spec_c07. apply (walk_model true ops world0 [] [] [] [] (INV0 true) (RunInv_nil _ _ _) Hd). intros _. exact Hm.
+Qed.
+Theorem c07_known_delimited ops : dom07 ops = true -> mixed_kinds_registered ops (World.run world0 ops) = true ->
+  known_mixed_kinds ops (World.run world0 ops) = true.
+Proof.
+  intros Hd Hm. unfold known_mixed_kinds. rewrite Hm.
+  apply (walk_model false ops world0 [] [] [] [] (INV0 false) (RunInv_nil _ _ _) Hd). intros H. discriminate.
+Qed.
+Theorem c07_spec_model ops : dom07 ops = true ->
+  spec_c07 ops (World.run world0 ops) = true \/ known_mixed_kinds ops (World.run world0 ops) = true.
+Proof.
+  intros Hd. destruct (mixed_kinds_registered ops (World.run world0 ops)) eqn:Hm.
+  - right. apply c07_known_delimited; auto.
+  - left. apply c07_spec_strict; auto.
+Qed.
+
+Lemma walk_weaken (chk chk' : world -> reginfo -> list MetricFamily -> bool) (same same' : list MetricFamily -> list MetricFamily -> bool) :
+  (forall w x f, chk w x f = true -> chk' w x f = true) -> (forall a b, same a b = true -> same' a b = true) ->
+  forall ops w regs rn obs, walk chk same w regs rn ops obs = true -> walk chk' same' w regs rn ops obs = true.
+Proof.
+  intros Hc Hs. induction ops as [|o ops IH]; intros w regs rn obs; [auto|]. destruct obs as [|ob obs]; [auto|].
+  destruct (classic_gather o) as [[r ->]|Hn].
+  - cbn [walk]. destruct ob; auto. destruct (ri_find r regs) as [x|]; auto.
+    rewrite !andb_true_iff. intros [[A B] C]. repeat split; auto.
+    rewrite forallb_forall in *. intros e He. specialize (B e He). destruct (gkey_eqb (fst e) (key_of x)); cbn [negb orb] in *; auto.
+  - rewrite !walk_nongather by auto. apply IH.
+Qed.
+Lemma same_types_of_eqb a : forall b, list_eqb mf_eqb a b = true -> same_types a b = true.
+Proof.
+  unfold same_types. induction a as [|x a IH]; destruct b as [|y b]; cbn; auto.
+  unfold mf_eqb at 1. rewrite !andb_true_iff. intros [[[[A B] C] D] E]. repeat split; auto.
+Qed.
+Theorem c14_spec_strict ops : dom14 ops = true -> mixed_kinds_registered ops (World.run world0 ops) = false ->
+  spec_c14 ops (World.run world0 ops) = true.
+Proof.
+  intros Hd Hm. destruct (walk_model true ops world0 [] [] [] [] (INV0 true) (RunInv_nil _ _ _) Hd (fun _ => Hm)) as [A B].
+  unfold spec_c14. apply andb_true_iff. split.
+  - apply (B eq_refl).
+  - eapply walk_weaken; [| |exact A]; auto. apply same_types_of_eqb.
+Qed.
+Theorem c14_spec_model ops : dom14 ops = true ->
+  spec_c14 ops (World.run world0 ops) = true \/ known_c14 ops (World.run world0 ops) = true.
+Proof.
+  intros Hd. destruct (mixed_kinds_registered ops (World.run world0 ops)) eqn:Hm.
+  - right. unfold known_c14. apply c07_known_delimited; auto.
+  - left. apply c14_spec_strict; auto.
+Qed.
